@@ -134,6 +134,37 @@ class Canon:
         self.str_map = {}
         self.ctor_roles = {}
 
+    @staticmethod
+    def _ity(e):
+        """(bits, signed) of a C++ integer expression when the front end recorded it, else None"""
+        if e.k == 'cast':
+            return (e.a[0], e.a[1]) if isinstance(e.a[0], int) else None
+        if e.ty:
+            from .cxx import int_type
+            return int_type(e.ty)
+        return None
+
+    def nonneg(self, e):
+        """the C++ expression cannot be negative, by its type alone (an unsigned value, a strictly widening conversion of
+        one, a non-negative literal, or an arithmetic combination of such)"""
+        if e.k == 'const':
+            return isinstance(e.a[0], int) and e.a[0] >= 0
+        t = self._ity(e)
+        if e.k == 'cast':
+            if t is None:
+                return False
+            if not t[1]:
+                return True
+            it = self._ity(e.a[2])
+            return it is not None and it[0] < t[0] and self.nonneg(e.a[2])
+        if e.k == 'bin' and e.a[0] == '&':
+            return self.nonneg(e.a[1]) or self.nonneg(e.a[2])
+        if e.k == 'bin' and e.a[0] in ('%', '/', '>>'):
+            return self.nonneg(e.a[1]) and self.nonneg(e.a[2])
+        if t is not None and not t[1]:
+            return True
+        return False
+
     def leaf(self, name):
         if name in self.env:
             return self.env[name]
@@ -153,7 +184,7 @@ class Canon:
                     return k[0][1]
             return e.a[0]
         if e.k == 'this':
-            return 'this'
+            return getattr(self, 'this_path', None) or 'this'
         if e.k == 'field':
             b = self.path(e.a[0])
             return None if b is None else '%s.%s' % (b, e.a[1])
@@ -227,6 +258,9 @@ class Canon:
                     q = q if (x >= 0) == (y >= 0) else -q
                     return Poly.const(q if op == '/' else x - q * y)
                 tag = {'/': 'tdiv', '//': 'fdiv', '%': 'tmod', '%%': 'fmod'}[op]
+                if self.lang == 'c' and tag in ('tdiv', 'tmod') and self.nonneg(a[1]) and self.nonneg(a[2]):
+                    # truncation and flooring coincide on non-negative operands (x % 16 on a uint8_t is x & 0x0f)
+                    tag = {'tdiv': 'fdiv', 'tmod': 'fmod'}[tag]
                 if self.unify_divmod:
                     tag = {'tdiv': 'div', 'fdiv': 'div', 'tmod': 'mod', 'fmod': 'mod'}[tag]
                 return Poly.atom((tag, l.key(), r.key()))
@@ -256,6 +290,11 @@ class Canon:
                 vals[order[i]] = v
             if set(vals) == set(order):
                 return Poly.atom(('init', self.fn.get(a[0], a[0]), tuple(vals[f] for f in order)))
+        if k == 'call' and self.lang == 'py' and a[0] == 'divmod' and a[1] is None and len(a[2]) == 2 and all(x.k != 'kw' for x in a[2]):
+            l, r = self(a[2][0]), self(a[2][1])
+            q = self(E('bin', '//', a[2][0], a[2][1], loc=e.loc))
+            m = self(E('bin', '%%', a[2][0], a[2][1], loc=e.loc))
+            return Poly.atom(('init', 'tuple', (q.key(), m.key())))
         if k == 'call':
             name = self.fn.get(a[0], a[0])
             args = []
@@ -543,6 +582,14 @@ class SymExec:
         self.cmp_calls = {}     # resolved callee name -> comparison operator on its two arguments
         self.bool_return = False   # summarise `return <boolean expr>` as two guarded paths returning 1 / 0
         self.ctor_roles = {}
+        # opt-in normalisations (a rule switches them on when the spelling must not matter to it):
+        self.split_cond = False    # `x = c ? a : b`, `return c ? a : b` are summarised as the if/else they abbreviate
+        self.tables = None         # name -> list of IR element expressions of a constant table; `for x in TABLE` is unrolled
+        self.inliner = None        # (callee name, number of arguments) -> function (params, body) to be summarised in place
+        self._nest = []            # 'loop' / 'switch' markers: which construct a `break` leaves
+        self._brk = []
+        self._cont = []
+        self._inline_depth = 0
 
     def canon(self, env):
         return _InliningCanon(self, env)
@@ -599,9 +646,67 @@ class SymExec:
             states = self._stmt(stmt, states, summary, depth)
         return states
 
+    @staticmethod
+    def _as_cond(e):
+        """e is `c ? x : y` possibly under conversions -> (c, x, y) with the conversions pushed into the arms"""
+        wraps = []
+        while e is not None and e.k == 'cast':
+            wraps.append(e)
+            e = e.a[2]
+        if e is None or e.k != 'cond':
+            return None
+        x, y = e.a[1], e.a[2]
+        for w in reversed(wraps):
+            x = E('cast', w.a[0], w.a[1], x, loc=w.loc, ty=w.ty)
+            y = E('cast', w.a[0], w.a[1], y, loc=w.loc, ty=w.ty)
+        return e.a[0], x, y
+
+    def _table_elems(self, it):
+        x = it.a[0] if it.k == 'iter' else it
+        if x.k == 'init' and x.a[0] in ('tuple', 'list'):
+            return list(x.a[1])
+        if x.k == 'var' and self.tables is not None:
+            return self.tables(x.a[0])
+        return None
+
     def _stmt(self, s, states, summary, depth):
         k, a = s.k, s.a
         out = []
+        if self.split_cond and k in ('decl', 'assign', 'return'):
+            from .ir import S as _S
+            val = a[2] if k == 'decl' else a[1] if k == 'assign' else a[0]
+            sp = self._as_cond(val) if (val is not None and (k != 'assign' or a[2] == '=')) else None
+            if sp is not None:
+                c, x, y = sp
+                if k == 'return':
+                    arms = ([_S('return', x, loc=s.loc)], [_S('return', y, loc=s.loc)])
+                elif k == 'assign':
+                    arms = ([_S('assign', a[0], x, '=', loc=s.loc)], [_S('assign', a[0], y, '=', loc=s.loc)])
+                else:
+                    arms = ([_S('decl', a[0], a[1], x, loc=s.loc)], [_S('decl', a[0], a[1], y, loc=s.loc)])
+                return self._stmt(_S('if', c, arms[0], arms[1], loc=s.loc), states, summary, depth)
+        if k == 'loop' and a[0] == 'foreach' and a[1] and a[1][0].k == 'assign':
+            elems = self._table_elems(a[1][0].a[1])
+            if elems is not None and len(elems) <= 32:
+                from .ir import S as _S
+                tgt = a[1][0].a[0]
+                cur = states
+                left = []
+                for el in elems:
+                    self._nest.append('loop')
+                    self._brk.append([])
+                    self._cont.append([])
+                    try:
+                        falls = self._block([_S('assign', tgt, el, '=', loc=s.loc)] + list(a[4]), cur, summary, depth)
+                    finally:
+                        self._nest.pop()
+                        brk = self._brk.pop()
+                        cont = self._cont.pop()
+                    left.extend(brk)
+                    cur = list(falls) + cont
+                    if not cur:
+                        break
+                return cur + left
         if k == 'decl':
             for st in states:
                 if a[2] is not None:
@@ -665,6 +770,10 @@ class SymExec:
         if k == 'block':
             return self._block(a[0], states, summary, depth)
         if k in ('break', 'continue'):
+            if self._nest and (self._nest[-1] == 'loop' or (k == 'continue' and 'loop' in self._nest)):
+                # inside an unrolled table loop: the state leaves the iteration with everything it has computed
+                (self._brk if k == 'break' else self._cont)[-1].extend(states)
+                return []
             for st in states:
                 summary.add(st.guard, k, None, st.effects)
             return []
@@ -696,7 +805,11 @@ class SymExec:
                     j = i
                     while cur and j < len(arms):
                         sub = Summary('arm')
-                        cur = self._block(arms[j][1], cur, sub, depth)
+                        self._nest.append('switch')
+                        try:
+                            cur = self._block(arms[j][1], cur, sub, depth)
+                        finally:
+                            self._nest.pop()
                         for (gg, kk, rr, ee) in sub.paths:
                             if kk == 'break':
                                 out.append(PathState(dict(t.env), gg, ee))
@@ -737,10 +850,55 @@ class _InliningCanon(Canon):
         self.str_map = sx.str_map
         self.ctor_roles = sx.ctor_roles
         self.sx = sx
+        self.this_path = getattr(sx, '_this_path', None)
+
+    def _inline(self, e):
+        """value of a call to a small pure function, obtained by summarising its body in place: one return path, no
+        effects, by-value parameters; the receiver's fields are read through the receiver's own path"""
+        sx = self.sx
+        f = sx.inliner(e.a[0], len(e.a[2]))
+        if f is None or sx._inline_depth >= 3:
+            return None
+        params = list(f.params)
+        names = []
+        for p in params:
+            n_, t_ = (p if isinstance(p, tuple) else (p, None))
+            if t_ and ('&' in t_ or '*' in t_) and 'const' not in t_:
+                return None
+            names.append(n_)
+        if names and names[0] == 'self' and len(names) == len(e.a[2]) + 1:
+            names = names[1:]
+        if len(names) != len(e.a[2]) or any(x.k == 'kw' for x in e.a[2]):
+            return None
+        env = {n_: self(x) for n_, x in zip(names, e.a[2])}
+        this_path = None
+        if e.a[1] is not None:
+            this_path = self.path(e.a[1])
+            if this_path is None:
+                return None
+        sub = SymExec(sym=sx.sym, fn=sx.fn, resolve=sx.resolve, fold_global=sx.fold_global, lang=sx.lang, unify_divmod=sx.unify_divmod)
+        sub.cmp_calls, sub.str_map, sub.ctor_roles = sx.cmp_calls, sx.str_map, sx.ctor_roles
+        sub.inliner, sub.tables = sx.inliner, sx.tables
+        sub._inline_depth = sx._inline_depth + 1
+        sub._this_path = this_path
+        try:
+            summ = sub.run(e.a[0], f.body, env)
+        except AnalysisError:
+            return None
+        if len(summ.paths) != 1:
+            return None
+        g, kind, res, eff = summ.paths[0]
+        if kind != 'return' or res is None or eff or g != ('true',):
+            return None
+        return Poly(dict(res))
 
     def __call__(self, e):
         if e.k == 'call' and self.sx.resolve is not None:
             r = self.sx.resolve(e, self)
+            if r is not None:
+                return r
+        if e.k == 'call' and self.sx.inliner is not None:
+            r = self._inline(e)
             if r is not None:
                 return r
         if e.k == 'fstr':
